@@ -281,12 +281,21 @@ def gen(tier):
     if tier == 'quick':
         r.shuffle(ca_cases)
         seen, keep = set(), []
+        late = []
         for c in ca_cases:
-            k = (c['kind'], c['label'].split(':')[0])
+            fam = c['label'].split(':')[0]
+            # the download and the polls after finalize handle bodies and statuses: every label is kept there (1 identifier)
+            if c['n_ids'] == 1 and c['kind'] == 'cert' and fam in ('cert-body', 'close-mid-body', 'bad-json', 'nonjson', 'empty', 'no-nonce'):
+                k = (c['kind'], c['label'])
+                if k not in seen:
+                    seen.add(k)
+                    late.append(c)
+                continue
+            k = (c['kind'], fam)
             if k not in seen:
                 seen.add(k)
                 keep.append(c)
-        ca_cases = keep[:110]
+        ca_cases = late + keep[:100]
     else:
         ca_cases = [c for c in ca_cases if c['n_ids'] == 1] + r.sample([c for c in ca_cases if c['n_ids'] == 2], 300)
     multi = []
